@@ -28,6 +28,8 @@ def run(ctx):
     rule_alias_shadow(ctx, "C01.alias_shadow")
     from .c04 import rule_custom_record_tag_scan
     rule_custom_record_tag_scan(ctx, "C01.custom_record_tag_scan")
+    from .c13 import rule_segment_tag_scan
+    rule_segment_tag_scan(ctx, "C01.segment_tag_scan")
     fm = codec.field_modules(repo)
     hooks = LineHooks(repo)
     modules = {}
